@@ -12,8 +12,8 @@ ENGINE_C = "storesim"
 CLAIMED = {
     "C01": (ENGINE_A, "exploration",
             "direct drive of the real nuts::draw (hook H3) with every random decision scripted by the simulator (directions, selection thresholds, momentum); refinement against the index-based reference RefNuts; mirrored re-execution from every state of the trajectory",
-            "Per scenario (target, explicit diagonal / low-rank transformation, Euclidean / ExactNormal, step size, maxdepth 1..6, start, momentum, direction script, threshold script): R1 the real nuts::draw re-run from every state of the final block with the mirrored doubling choices visits the same states with the same depth and stopping reason; R2 with the same thresholds the implementation selects the index the reference selection law selects and draws random numbers in the predicted sequence; R3 the direction is the sign bit of the raw uniform draw (probability exactly 1/2); the tree building equals RefNuts.",
-            "Detailed balance of the reference kernel itself is the algebra of DESIGN.md Appendix A, not re-derived numerically. Divergent trajectories are outside the quantifier; near-ties and numerically unstable orbits (energy spread > 2) are skipped for R1 and counted.",
+            "Per scenario (target, explicit diagonal / low-rank transformation, Euclidean / ExactNormal, step size, maxdepth 1..6, start, momentum, direction script, threshold script): R1 the real nuts::draw re-run from every state of the final block with the mirrored doubling choices visits the same states with the same depth and stopping reason; R2 with the same thresholds the implementation selects the index the reference selection law selects and draws random numbers in the predicted sequence; R3 the direction is the sign bit of the raw uniform draw (probability exactly 1/2); the tree building equals RefNuts. Stationarity batch: 20000 (thorough 60000) independent particles start from exact i.i.d. draws of the target and make 1/3/6 real transitions with a fixed transformation and step size; per coordinate and for the log density the fraction below the quantiles of an independent reference sample must stay binomial around 5/25/50/75/95% (z statistic, critical 6) - holds for every invariant kernel whatever its mixing speed.",
+            "Detailed balance of the reference kernel itself is the algebra of DESIGN.md Appendix A; numerically it is backed by the stationarity batch (which would also see a bias of the reference law). Divergent trajectories are outside the quantifier; near-ties and numerically unstable orbits (energy spread > 2) are skipped for R1 and counted.",
             "DESIGN.md §5 C01, Appendix A"),
     "C02": (ENGINE_A, "exploration",
             "direct drive of the real Hamiltonian::leapfrog (hook H3) from a scripted momentum; every visited state (trajectory tap) compared with a dense-matrix reference",
@@ -27,7 +27,7 @@ CLAIMED = {
             "DESIGN.md §5 C03"),
     "C04": (ENGINE_A, "exploration",
             "seeded, exactly repeatable multi-chain simulation with default settings; between-chain t statistics against known moments; momentum observed at the delegating Math seam",
-            "Cells = NUTS preset x kinetic energy x step-size method x target with known moments (isotropic / badly scaled / correlated Gaussians, Student-t, skewed log-gamma), 32 independently seeded chains each; mean, variance and quantile coverage per coordinate against the truth at a two-sided 1e-7 level with between-chain standard errors; no post-warmup divergences on Gaussians; trajectory-start momentum: KS distance to N(0,1) and independence of earlier draws.",
+            "Cells = NUTS preset x kinetic energy x step-size method x target with known moments (isotropic / badly scaled / correlated Gaussians, Student-t, skewed log-gamma), 32 independently seeded chains each; mean, variance and quantile coverage per coordinate against the truth at a two-sided 1e-7 level with between-chain standard errors; no post-warmup divergences on well-conditioned (isotropic / correlated, condition number <= 400) Gaussians; trajectory-start momentum: KS distance to N(0,1) and independence of earlier draws. Stationarity batch as in C01 (invariance from exact draws, independent of mixing).",
             "Weak fit for the family (no schedule, no fault): the simulator contributes repeatability and the momentum seam. Biases below about one between-chain standard error (32 x 4000 draws) are invisible. Truth for non-Gaussian targets from 2e6 i.i.d. reference draws (its error is in the denominator).",
             "DESIGN.md §5 C04"),
     "C05": (ENGINE_A, "fault_enumeration",
